@@ -979,8 +979,8 @@ def tsan_runs(ctx, plan):
     byname = {it["name"]: it for it in plan}
     items = [dict(byname[n]) for n in ("rhd-race-live-8t", "tbi-race-trackers-8t", "rhd-stress-small-pools") if n in byname]
     items.insert(0, dict(name="tsan-mask", kind="tsan", threads=4, stages=[(["--task-based-rhd"], [])],
-                         param=rhd_param(dict(layout=(4, 4, 2), cells=(2, 3, 2), mask=True, mask_radius=0.12, turbulence=True, per=(True, True, False), live=True,
-                                              total_time=0.0005, snaptime=0.0005))))
+                         # many subgrids: with few, the first thread finishes a parallel loop before the others have started
+                         param=rhd_param(dict(layout=(8, 8, 4), cells=(2, 2, 2), mask=True, mask_radius=0.12, live=True, total_time=0.0003, snaptime=0.0003))))
     stats = {"build_s": round(secs, 1), "runs": 0, "reports": 0, "known": {}, "new": 0}
     for it in items:
         res, d = run_binary(binary, it["param"], it["stages"][0][0], 4, aux=it.get("aux"), env=TSAN_ENV, timeout=240)
